@@ -13,6 +13,7 @@ import (
 )
 
 type Clause struct {
+	Only []string // property ids this clause is checked under ("ensures @C13 @C01 <e>"); empty = every property of the block
 	E    Expr
 	Src  string
 	File string
@@ -301,10 +302,21 @@ func (cs *ContractSet) parseFile(pkgPath, file string) error {
 			}
 			cur.Requires = append(cur.Requires, c)
 		case strings.HasPrefix(t, "ensures "):
-			c, err := mk(t[8:])
+			rest := strings.TrimSpace(t[8:])
+			var only []string
+			for strings.HasPrefix(rest, "@") {
+				sp := strings.SplitN(rest, " ", 2)
+				if len(sp) != 2 {
+					return fail(fmt.Errorf("bad ensures"))
+				}
+				only = append(only, sp[0][1:])
+				rest = strings.TrimSpace(sp[1])
+			}
+			c, err := mk(rest)
 			if err != nil {
 				return err
 			}
+			c.Only = only
 			cur.Ensures = append(cur.Ensures, c)
 		case strings.HasPrefix(t, "modifies "):
 			for _, part := range splitTop(t[9:]) {
